@@ -11,6 +11,7 @@ import (
 	"math/big"
 	"math/rand"
 	"os"
+	"sync/atomic"
 	"time"
 
 	ethcommon "github.com/ethereum/go-ethereum/common"
@@ -73,6 +74,7 @@ func script(seed int64, idx int) {
 	var txs []*evmsim.Tx
 	exp := map[ethcommon.Hash]*expectation{}
 	faults := false
+	restarted := false // a restart provoked by the dedicated scenario (still judged for exactly-once)
 	allowFaults := rng.Intn(3) == 0
 	nSteps := 5 + rng.Intn(8)
 	for st := 0; st < nSteps; st++ {
@@ -128,6 +130,60 @@ func script(seed int64, idx int) {
 			sim.Mutate("advance", func(s *evmsim.Sim) { s.AdvanceHead(target) })
 			tr(fmt.Sprintf("head jumps to %d (block %d + %d)", target, blk.Number, target-blk.Number))
 			vlib.CDistinct("head_jumps", fmt.Sprintf("%s/jump=%d/cl=%d", md, jump, cl))
+		case x == 11 && !allowFaults: // the node fails three head polls in a row while a message is pending: the watcher restarts; the message must still be forwarded
+			cl := uint8(15)
+			var tx *evmsim.Tx
+			var blk *evmsim.Block
+			sim.Mutate("mine-pending", func(s *evmsim.Sim) {
+				var hb [32]byte
+				rng.Read(hb[:])
+				tx = &evmsim.Tx{Hash: ethcommon.Hash(hb), Status: 1, Note: "core", Logs: []*evmsim.LogSpec{mkLog("core", cl)}}
+				if md == "bsc" {
+					blk = s.Include(tx, s.Head+1)
+					s.AdvanceHead(blk.Number) // pending: 15 confirmations to go
+				} else {
+					blk = s.Include(tx, s.Head+3) // pending: not yet at the served (finalized) head
+				}
+			})
+			txs = append(txs, tx)
+			exp[tx.Hash] = &expectation{tx: tx, log: tx.Logs[0], block: blk, note: "pending across a watcher restart caused by three failed head polls"}
+			h.Quiesce(2, 20*time.Second)
+			exits := atomicLoad(&h.RunExits)
+			sim.WithLock(func() {
+				base := sim.CountLocked("getBlockByNumber")
+				sim.Faults["getBlockByNumber"] = map[int]string{}
+				for i := 1; i <= 3; i++ {
+					sim.Faults["getBlockByNumber"][base+i] = "error"
+				}
+			})
+			tr(fmt.Sprintf("mine core tx=%x (pending in block %d); the next three head polls fail -> watcher restart", tx.Hash[:4], blk.Number))
+			vlib.CCount("restart_with_pending_scenarios", 1)
+			// wait for the restart (bounded) and for the new run to subscribe again
+			dl := time.Now().Add(20 * time.Second)
+			for time.Now().Before(dl) && (atomicLoad(&h.RunExits) == exits || sim.Subscribers() == 0) {
+				time.Sleep(5 * time.Millisecond)
+			}
+			sim.WithLock(func() { delete(sim.Faults, "getBlockByNumber") })
+			if atomicLoad(&h.RunExits) == exits {
+				vlib.CCount("restart_not_provoked", 1)
+			}
+			restarted = true
+			for i := 0; i < 20; i++ {
+				sim.Mutate("advance", func(s *evmsim.Sim) { s.AdvanceHead(s.Head + 1) })
+				h.Quiesce(2, 20*time.Second)
+			}
+			tr("head advances 20 times by 1")
+			// bounded progress: 20 head advances are more than the 15 confirmations (or the 3 blocks) it was short of
+			got := 0
+			for _, a := range h.ArrivalsCopy() {
+				if a.Msg.TxHash == tx.Hash {
+					got++
+				}
+			}
+			if got == 0 {
+				vlib.CFinding("pending-message-not-forwarded-after-watcher-restart-although-depth-reached", map[string]interface{}{"script": desc, "trace": trace, "pending_now": h.W.VerifPendingCount(),
+					"head_polls_since_restart": "none while idle (see trace)", "tx": fmt.Sprintf("%x", tx.Hash[:4])})
+			}
 		case x == 10 && !allowFaults && len(txs) > 0: // a deep reorg re-mines an old transaction; the first lookup for the new inclusion fails transiently
 			tx := txs[rng.Intn(len(txs))]
 			if tx.Block == nil || tx.Status != 1 || exp[tx.Hash] == nil {
@@ -285,7 +341,7 @@ func script(seed int64, idx int) {
 	}
 	// ---- forwarded exactly once, however far the head jumped (scripts without injected RPC errors)
 	arr := h.ArrivalsCopy()
-	if !faults && atomicLoad(&h.RunExits) == 0 {
+	if !faults && (atomicLoad(&h.RunExits) == 0 || restarted) {
 		for _, e := range exp {
 			if e.block == nil {
 				continue
@@ -340,7 +396,7 @@ func script(seed int64, idx int) {
 	}
 }
 
-func atomicLoad(p *int32) int32 { return *p }
+func atomicLoad(p *int32) int32 { return atomic.LoadInt32(p) }
 
 func minInt(a, b int) int {
 	if a < b {
